@@ -324,3 +324,38 @@ def c11_5(R):
                     else:
                         R.ok("send-sites", fn.split("::")[-1], callee.split("::")[-1])
     R.floor("transport send sites", n, 8)
+
+
+@rule("C11.6", ["C11", "C13", "C17"], ["E4", "E7"], "the two datagrams built outside a connection carry the ids owed to the initiator",
+      "Dispatcher::on_control builds the SYN as UtpHeader { htype: ST_SYN, connection_id: <the id returned by get_next_free_conn_id>, .. } (the id under which the SYN-ACK is looked up and the stream "
+      "inserted, C08.1); try_send_rst builds UtpHeader { htype: ST_RESET, connection_id: syn.header.connection_id (+0), ack_nr: syn.header.seq_nr, .. }: the initiator matches replies by the id it put in its SYN.")
+def c11_6(R):
+    F = R.facts
+    seen = set()
+    nfound = [0]
+    for fname in ("socket::Dispatcher::on_control", "socket::Dispatcher::try_send_rst"):
+        for b in [F.body(fname)] + F.closures_of(fname):
+            if b is None:
+                continue
+            for s in b.stmts():
+                if s.rv.kind == "agg" and s.rv.j.get("adt") == "raw::UtpHeader":
+                    names = s.rv.j["fields"]
+                    ht = classify(b, s.rv.ops[names.index("htype")])
+                    cid_t, k = affine_trace(b, s.rv.ops[names.index("connection_id")])
+                    nfound[0] += 1
+                    if fname.endswith("on_control"):
+                        okc = "ST_SYN" in ht and cid_t.kind == "call" and call_matches(cid_t.root[1], ("socket::Dispatcher::get_next_free_conn_id",)) and k == 0
+                        if okc:
+                            seen.add("syn")
+                            R.ok("syn-header", fname, "ST_SYN, connection_id = get_next_free_conn_id(addr)")
+                        else:
+                            R.fail([fname, "SYN-header", "type=%s conn_id=%s%+d" % (ht, cid_t.describe()[:50], k)], "the SYN does not carry the freshly chosen receive connection id", where=s.where(), instance="syn-header")
+                    else:
+                        ack_t, ka = affine_trace(b, s.rv.ops[names.index("ack_nr")])
+                        okr = "ST_RESET" in ht and cid_t.fields[-2:] == ["Syn.header", "UtpHeader.connection_id"] and k == 0 and ack_t.fields[-2:] == ["Syn.header", "UtpHeader.seq_nr"] and ka == 0
+                        if okr:
+                            seen.add("rst")
+                            R.ok("rst-header", fname, "ST_RESET, connection_id = syn.header.connection_id, ack_nr = syn.header.seq_nr")
+                        else:
+                            R.fail([fname, "RST-header", "type=%s conn_id=%s%+d ack_nr=%s%+d" % (ht, ".".join(cid_t.fields[-2:]), k, ".".join(ack_t.fields[-2:]), ka)], "the RESET answering a refused SYN does not carry the SYN's own connection id / sequence number: the initiator cannot match it", where=s.where(), instance="rst-header")
+    R.floor("SYN and RST header aggregates", nfound[0], 2)
